@@ -12,7 +12,7 @@ def units(tier):
 
 META = {
     "level_if_complete": "other",
-    "functions_under_contract": [],
+    "functions_under_contract": ['PivotedCholesky.forward', 'LinearOperator.pivoted_cholesky', 'linear_operator.utils.permutation.apply_permutation', 'linear_operator.utils.permutation.inverse_permutation', 'AddedDiagLinearOperator._preconditioner/_init_cache/_init_cache_for_constant_diag/_init_cache_for_non_constant_diag'],
     "trusted_base": ["real torch float64 dense linear algebra (solve, eigh, cholesky, logdet) as the oracle"],
     "assumptions": ["bounded tier only"] + list(RTC_META.get("assumptions", [])),
     "explanation": RTC_META["explanation"],
